@@ -23,7 +23,7 @@ from ..seams import stepclock
 LABELS = ["a", "b", "c", "d", "e", "A", "B", "x", "y", "Cc", "cc"]
 
 OPS = ["append", "append", "insert", "extend_list", "extend_treelist", "iadd", "add", "setitem", "setslice_list", "setslice_treelist",
-       "read_data", "read_path", "read_file", "new_tree", "pop", "remove", "delitem", "construct", "migrate", "reconstruct",
+       "read_data", "read_path", "read_file", "new_tree", "new_tree_seed_node", "new_tree_from_tree", "pop", "remove", "delitem", "construct", "migrate", "reconstruct",
        "update_ns", "getslice", "ta_add_foreign", "ta_add", "ta_merge_foreign", "ta_merge_foreign", "new_tree_foreign_ns",
        "m_new_sequence", "m_setitem", "m_setitem_foreign", "m_migrate", "m_reconstruct", "m_from_dict",
        "ds_add_list", "ds_add_matrix", "ds_new_tree_list", "ds_new_char_matrix", "ds_read", "ds_attach", "ds_unify", "ds_detach"]
@@ -283,6 +283,18 @@ class C11(Machine):
         if op == "new_tree":
             L.new_tree()
             return "ok"
+        if op == "new_tree_seed_node":
+            # a node structure carrying taxa of another namespace handed to the list's tree factory
+            t = self._foreign_tree(st)
+            L.new_tree(seed_node=t.seed_node.extract_subtree())
+            return "imported"
+        if op == "new_tree_from_tree":
+            t = self._foreign_tree(st)
+            items_before = [(lab, tid) for _, lab, tid in self._items([t])]
+            nt = L.new_tree(t)
+            after = self._items([nt])
+            self._label_rule(rec, op, [(a_[0], lab, tid) for a_, (lab, tid) in zip(after, items_before)], L.taxon_namespace, mb_L)
+            return "imported"
         if op == "new_tree_foreign_ns":
             other = self.nss[(st["ns"] + 1) % 3]
             if other is L.taxon_namespace:
